@@ -519,13 +519,22 @@ def multiNsOrigAux (target : Name) : List PropV → List Name → Except PyExc (
 def mkInstRec (ns : Name) (cls : Name) (keys : List (Name × Val)) (icls : Name) (props : List PropV) : InstRec :=
   { key := mkKey ns cls keys, path := { cls := cls, ns := some ns, keys := keys }, cls := icls, props := props }
 
+/-- `for ns in assoc_namespaces: get_required_class(instance, ns)`: KeyError for a namespace that does not
+    exist (get_class_store), CIM_ERR_INVALID_CLASS for a namespace without the class; first failure wins -/
+def requireClassAll (s : State) (cls : Name) : List Name → Option PyExc
+  | [] => none
+  | n :: rest =>
+    match findNs s n with
+    | none => some .keyError
+    | some r => if hasClass r cls then requireClassAll s cls rest else some (cim cimErrInvalidClass)
+
 /-- mirrors _instancewriteprovider.py: create_multi_namespace_instance (nss = other namespaces ++ [orig]) -/
 def createMulti (nss : List Name) (orig : Name) (i : Inst) : M Unit := do
   let s ← getS
   -- the class must exist in every namespace
-  if nss.any (fun n => match findNs s n with | some r => !hasClass r i.cls | none => true) then
-    raise (cim cimErrInvalidClass)
-  else
+  match requireClassAll s i.cls nss with
+  | some e => raise e
+  | none =>
     let ro ← getNs orig
     match findClass ro i.cls with
     | none => raise (cim cimErrInvalidClass)
@@ -573,9 +582,10 @@ def updateProps (old new : List PropV) : List PropV :=
     instance with the path of that namespace; the dict keys keep theirs) -/
 def modifyMulti (nss : List Name) (rec : InstRec) : M Unit := do
   let s ← getS
-  if nss.any (fun n => match findNs s n with | some r => !hasClass r rec.cls | none => true) then
-    raise (cim cimErrInvalidClass)
-  else if nss.any (fun n => match findNs s n with
+  match requireClassAll s rec.cls nss with
+  | some e => raise e
+  | none =>
+  if nss.any (fun n => match findNs s n with
                             | some r => !hasInst r { rec.key with ns := lower n } | none => true) then
     raise (cim cimErrNotFound)
   else
